@@ -32,7 +32,7 @@ fn amount(conv: &Converter, q: &ScaledQuantity) -> Option<(String, f64, f64)> {
     };
     match q.unit() {
         None => Some(("<none>".into(), lo, hi)),
-        Some(u) => match conv.find_unit(u) {
+        Some(u) => match crate::units::unit_by_exact_key(conv, u) {
             Some(unit) => Some((format!("{}", unit.physical_quantity), (lo + unit.difference) * unit.ratio, (hi + unit.difference) * unit.ratio)),
             None => Some((format!("unit:{u}"), lo, hi)),
         },
@@ -125,7 +125,7 @@ fn check_quantity(conv: &Converter, what: &str, pre: &Pre, post: Option<&ScaledQ
             }
             match (amount(conv, p), amount(conv, q)) {
                 (Some((ca, a0, a1)), Some((cb, b0, b1))) => {
-                    let off = conv.find_unit(p.unit().unwrap_or("")).map(|u| u.difference * u.ratio).unwrap_or(0.0);
+                    let off = crate::units::unit_by_exact_key(conv, p.unit().unwrap_or("")).map(|u| u.difference * u.ratio).unwrap_or(0.0);
                     // amounts are linear in the value only without offset; the generator uses no offset units
                     if ca != cb || !close((a0 - off) * f + off, b0) || !close((a1 - off) * f + off, b1) {
                         bad.push(("scaled_amount_wrong".into(), format!("{what}: {p} x {f} became {q} ({:?}); amount {a0}..{a1} x {f} != {b0}..{b1}", q.value())));
